@@ -352,6 +352,9 @@ func rulesC06(c *Ctx) {
 		c.Pin("decodeMetaValue 'present' returns", nP, 2)
 	})
 
+	c.Import("R-C06-6", "what a session's server/discover advertises (and therefore whether per-request metadata is accepted on it) depends on that session's own transport: the filtered version list is per-session state, and the flag that admits 2026-07-28 over HTTP is the configured Stateless option and nothing else", "C07", "R-C07-2", func(k string) bool {
+		return strings.Contains(k, "per-session") || strings.HasPrefix(k, "Stateless") || strings.HasPrefix(k, "stateless") || strings.HasPrefix(k, "discover:")
+	})
 	c.Import("R-C06-4", "the HTTP transport cannot be used to smuggle per-request metadata past the stateful endpoint: the body's _meta.protocolVersion is read unconditionally and triggers the header/body cross-check", "C12", "R-C12-1", func(k string) bool { return strings.Contains(k, "mirror-gate") })
 	c.Import("R-C06-5", "the _meta member that opens the per-request path is matched case-sensitively, like every other wire decode (a differently-cased key must not count as metadata)", "C19", "R-C19-5", nil)
 
